@@ -27,7 +27,8 @@ MODULES = ["BMV.Props.C17"]
 EXE = "oracle-c17"
 GEN = os.path.join(vlib.LEAN, "BMV", "Gen", "GoStmts.lean")
 KINDS = ["proc", "disp", "emu", "req", "pool"]
-SIM_MODES = ("seq", "seqerr", "par", "fit", "raw")
+SIM_MODES = ("seq", "seqerr", "par", "fit", "raw", "seqdyn", "pardyn")
+REGS = ("types", "matchers", "opcodes")   # process-wide registries: bmnumbers.AllTypes/AllMatchers, procbuilder.Allopcodes
 POOL_DRIVER = os.path.join(vlib.HARNESS, "cmd", "c17", "simfinetune_driver_test.go.txt")
 CALIBRATION = ("reqhold", "reqrelease")   # the harness itself keeps servers open, then closes them
 
@@ -83,13 +84,18 @@ def spec_of(b):
     mach = d.get("mach", "-")
     if d["mode"] not in SIM_MODES:
         mach = "-"
-    return "%s,%s,%s,%s" % (d["mode"], d["n"], max(1, int(d.get("k", "1"))), mach)
+    dt = ("," + d["dt"]) if d.get("dt", "-") != "-" else ""
+    return "%s,%s,%s,%s%s" % (d["mode"], d["n"], max(1, int(d.get("k", "1"))), mach, dt)
 
 
 def growth(b):
     o = b["obs"]
     g = {k: int(o[k]) for k in KINDS}
     g["other"] = int(o["other"])
+    if b["b"]["mode"] in SIM_MODES:   # (an assembly may legitimately register new dynamic opcodes)
+        for r in REGS:   # retained simulator state: entries added to the process-wide registries
+            if r in o:
+                g["registry:" + r] = int(o[r])
     return g
 
 
@@ -104,7 +110,7 @@ def judge(cfg, b, listed):
         return ("calibration" if tie_ok else "tie"), ""
     leaked = {k: v for k, v in g.items() if v > 0}
     if leaked:
-        what = "%s n=%s P=%s%s leaves %s goroutines behind (%s)" % (
+        what = "%s n=%s P=%s%s leaves %s goroutines / registry entries behind (%s)" % (
             mode, n, P, (" Workers=%s" % d["W"]) if mode == "pool" else "", sum(leaked.values()),
             ", ".join("%s:+%d" % kv for kv in sorted(leaked.items())))
         if (mode in SIM_MODES and set(leaked) <= {"proc", "disp"} and g["proc"] == n * P and g["disp"] == n
@@ -230,6 +236,8 @@ def shrink(hbin, b, cfg, listed):
             # processors and the batch's own n keep the reproduction likely
             cands.append("%s,%s,%s,chain:P1:r8:incs.0:fail3" % (mode, d["n"], max(1, int(d.get("k", "1")))))
         cands.append("%s,1,1,%s" % (mode, d.get("mach", "-")))
+        if d.get("dt", "-") != "-":
+            cands = [c + "," + d["dt"] for c in cands]
     else:
         cands.append("%s,1,1,-" % mode)
     for spec in cands:
@@ -330,7 +338,8 @@ def run(rep):
                 "SinglePipelineSimulate calls, Fitness_default, raw VM launch/step/shutdown, bmreqs and basm "
                 "instances on generated chain machines (1..4 processors, 8/16/32 bit), the same on machines with "
                 "1..3 extra processors whose every step fails (addf16 at 8/32 bit), on machines with a spare processor that "
-                "cannot be initialised (empty program / no registers) at a random index, and cmd/simfinetune's "
+                "cannot be initialised (empty program / no registers) at a random index, simulations showing a value in a "
+                "dynamic number type (fps/fxps/lqs; process-wide registry sizes observed around every batch), and cmd/simfinetune's "
                 "FitnessFunction worker pool with Workers in {4, 1, 0, negative}; evaluations = simulation calls; "
                 "non-trivial = a batch that started at least one worker; distinct = distinct (mode, n, k, machine)",
         "samples": samples or [{"note": "no batch ran"}],
@@ -351,8 +360,10 @@ def run(rep):
         # the property's own quantifier (simulation calls) first, then the smallest batch
         leaks.sort(key=lambda x: (x[0]["b"]["mode"] not in SIM_MODES + ("pool",), int(x[0]["b"]["n"]), int(x[0]["b"]["P"])))
         b, spec, what = shrink(hbin, leaks[0][0], cfg, listed)
-        rep.violation({"property": PROP, "kind": "goroutines-left-behind", "what": what,
-                       "replay_spec": spec, "batch": b["line"],
+        g_ = growth(b)
+        only_reg = not any(v > 0 for k, v in g_.items() if not k.startswith("registry:"))
+        rep.violation({"property": PROP, "kind": "registry-entries-left-behind" if only_reg else "goroutines-left-behind",
+                       "what": what, "replay_spec": spec, "batch": b["line"],
                        "observed": growth(b), "model": b["model"], "tree_configuration": cfg,
                        "all_leaking_batches": [w for _, w in leaks][:12],
                        "broken_obligations": pr["broken"],
@@ -387,7 +398,7 @@ def replay(rep, path):
     listed = {f.get("id") for f in vlib.load_known_findings(PROP)}
     pbin = build_pool_driver() if spec.startswith("pool,") else None
     # a leak that depends on the order in which the workers report may need a few attempts
-    attempts = 8 if obj.get("kind") == "goroutines-left-behind" else 1
+    attempts = 8 if obj.get("kind") in ("goroutines-left-behind", "registry-entries-left-behind") else 1
     for _ in range(attempts):
         if pbin:
             impl, model = run_pool(pbin, spec[5:], 900)
